@@ -343,6 +343,98 @@ int run_free(const std::vector<std::string>& a)
 	return 0;
 }
 
+// ---- the sub-queue alone (spec/USpsc.tla) -----------------------------------------------------
+//  uspsc  <seg> <ops>        one thread: ops is a string of U (push the next number) and O (pop) calls on a
+//                            real ff::uSWSR_Ptr_Buffer with <seg> slots per ring; one event per call, then
+//                            the queue is drained (Drain{items})
+//  uspsc2 <seg> <n> <spin>   two free-running threads: the producer pushes 1..n, the consumer pops until it
+//                            has n elements (or 150 s pass); the popped values are logged as maximal runs of
+//                            consecutive numbers (run-length coding, no judgement), with the number of pops
+//                            that returned false after the producer had finished
+int run_uspsc(const std::vector<std::string>& a)
+{
+	if (a.size() < 3) { pj::Ev("Error").s("what", "uspsc: arguments").emit(); return 0; }
+	const unsigned long seg = std::stoul(a[1]);
+	ff::uSWSR_Ptr_Buffer q(seg);
+	q.init();
+	pj::Ev("Reset").s("mode", "uspsc").i("seg", static_cast<long>(seg)).i("np", 1).i("nc", 1).i("npush", 0).emit();
+	long next = 1;
+	for (const char c : a[2])
+	{
+		if (c == 'U')
+		{
+			const bool ok = q.push(enc(next));
+			pj::Ev("SPush").i("v", next).b("ok", ok).emit();
+			++next;
+		}
+		else
+		{
+			void *d = enc(SENTINEL);
+			const bool ok = q.pop(&d);
+			pj::Ev("SPop").b("ok", ok).i("v", dec(d)).emit();
+		}
+	}
+	std::vector<long> tail;
+	void *d = enc(SENTINEL);
+	while (tail.size() < 4096 && q.pop(&d)) { tail.push_back(dec(d)); d = enc(SENTINEL); }
+	pj::Ev("SDrain").ints("items", tail).emit();
+	return 0;
+}
+
+int run_uspsc2(const std::vector<std::string>& a)
+{
+	if (a.size() < 4) { pj::Ev("Error").s("what", "uspsc2: arguments").emit(); return 0; }
+	const unsigned long seg = std::stoul(a[1]);
+	const long n = std::stol(a[2]);
+	const int spin = std::stoi(a[3]);
+	ff::uSWSR_Ptr_Buffer q(seg);
+	q.init();
+	pj::Ev("Reset").s("mode", "uspsc2").i("seg", static_cast<long>(seg)).i("np", 1).i("nc", 1).i("npush", n).emit();
+	std::atomic<int> go{0};
+	std::atomic<bool> pdone{false};
+	std::vector<long> runs;       // from, to, from, to, ...
+	long got = 0, false_after_done = 0;
+	bool timeout = false;
+	std::thread prod([&] {
+		while (!go.load()) sched_yield();
+		for (long k = 1; k <= n; ++k)
+		{
+			q.push(enc(k));
+			if (spin && (k % spin) == 0) sched_yield();
+		}
+		pdone.store(true);
+	});
+	std::thread cons([&] {
+		while (!go.load()) sched_yield();
+		const auto t0 = std::chrono::steady_clock::now();
+		unsigned long it = 0;
+		while (got < n)
+		{
+			const bool quiesced = pdone.load();     // read before the call begins
+			void *d = enc(SENTINEL);
+			if (q.pop(&d))
+			{
+				const long v = dec(d);
+				++got;
+				if (!runs.empty() && runs.back() + 1 == v) runs.back() = v;
+				else { runs.push_back(v); runs.push_back(v); }
+				if (runs.size() > 2000) break;
+			}
+			else
+			{
+				if (quiesced) { if (++false_after_done > 3) break; }
+				if (spin && (it % (spin + 1)) == 0) sched_yield();
+			}
+			if ((++it & 0xffff) == 0 && std::chrono::steady_clock::now() - t0 > std::chrono::seconds(150)) { timeout = true; break; }
+		}
+	});
+	go.store(1);
+	prod.join();
+	cons.join();
+	pj::Ev("SRuns").ints("runs", runs).i("got", got).i("false_after_done", false_after_done).b("timeout", timeout).emit();
+	return 0;
+}
+
 }
 
 int main()
@@ -356,6 +448,8 @@ int main()
 		if (a[0] == "quit") break;
 		else if (a[0] == "ctl") run_ctl(a);
 		else if (a[0] == "free") run_free(a);
+		else if (a[0] == "uspsc") run_uspsc(a);
+		else if (a[0] == "uspsc2") run_uspsc2(a);
 		else pj::Ev("Error").s("what", "unknown command " + a[0]).emit();
 	}
 	return 0;
